@@ -168,60 +168,102 @@ def rnd_size(rng, big):
     return rng.randint(16, hi), rng.randint(16, hi)
 
 
-def generate(rng, tier):
-    n_cases = 70 if tier == 'quick' else 600
-    out = 0
-    tries = 0
-    while out < n_cases and tries < 50 * n_cases:
-        tries += 1
-        big = tier != 'quick' or rng.random() < 0.15
-        n, m = rnd_size(rng, big)
+def finish_case(rng, c, s):
+    """fill in the scale / pixel-scale fields of a case for the scale s (Fraction); None if not in the exact regime"""
+    if c['op'] == 'rescale':
+        c['scale'] = str(s)
+        u = rng.random()
+        if u < 0.15:
+            c['ps'] = None
+        elif u < 0.8:
+            p = Fraction(rng.randint(1, 40), rng.choice([64, 128, 1000, 3]))
+            c['ps'] = [str(Fraction(float(p)))] * 2
+        else:       # non-uniform sampling is fine for rescale
+            c['ps'] = [str(Fraction(float(Fraction(rng.randint(1, 40), 256)))),
+                       str(Fraction(float(Fraction(rng.randint(1, 40), 100))))]
+    else:
+        # ps = p*a/2^k, new = q*a/2^k  =>  ps/new = p/q exactly
+        a = rng.randint(1, 9)
+        k = rng.choice([256, 1024, 4096])
+        c['ps'] = [str(Fraction(s.numerator * a, k))] * 2
+        c['new_ps'] = str(Fraction(s.denominator * a, k))
+        if rng.random() < 0.25:      # decimal pixel scales whose ratio happens to be exact
+            new = rng.choice([0.001, 0.0025, 0.005, 0.01, 0.02])
+            c['ps'] = [str(Fraction(new * float(s)))] * 2
+            c['new_ps'] = str(Fraction(new))
+    if not float_exact(c):
+        return None
+    s_eff = the_scale(c)
+    if s_eff != s or s_eff < Fraction(1, 4) or s_eff > 4:
+        return None
+    return c
+
+
+def rnd_plane(rng, n, m, special=True):
+    c = {'n': n, 'm': m, 'g': rnd_g(rng),
+         'amp': rng.choice(['smooth'] * 5 + ['aperture', 'aperture']),
+         'opd': rng.choice(['smooth'] * 4 + ['aperture', 'scalar']),
+         'mask': rng.choice(['none', 'none', 'full', 'disk', 'disk', 'seg2', 'seg3', 'seg4', 'seg3'])}
+    if special:
         t = rng.random()
-        c = {'op': 'rescale' if t < 0.7 else 'resample', 'n': n, 'm': m, 'g': rnd_g(rng),
-             'amp': rng.choice(['smooth'] * 6 + ['aperture', 'aperture', 'scalar', 'int']),
-             'opd': rng.choice(['smooth'] * 4 + ['aperture', 'scalar']),
-             'mask': rng.choice(['none', 'none', 'full', 'disk', 'disk', 'seg2', 'seg3', 'seg4', 'seg3',
-                                 'intdisk', 'booldisk', 'scalar'])}
-        if c['mask'] == 'scalar' and rng.random() < 0.7:
+        if t < 0.05:
+            c['mask'] = rng.choice(['intdisk', 'booldisk'])
+        elif t < 0.08:
+            c['amp'] = 'int'
+        elif t < 0.14:
             c['amp'] = 'scalar'
-        s = Fraction(rnd_scale(rng))
-        if c['op'] == 'rescale':
-            c['scale'] = str(s)
-            u = rng.random()
-            if u < 0.2:
-                c['ps'] = None
-            elif u < 0.8:
-                p = Fraction(rng.randint(1, 40), rng.choice([64, 128, 1000, 3]))
-                c['ps'] = [str(Fraction(float(p)))] * 2
-            else:
-                c['ps'] = [str(Fraction(float(Fraction(rng.randint(1, 40), 256)))),
-                           str(Fraction(float(Fraction(rng.randint(1, 40), 100))))]
-        else:
-            u = rng.random()
-            if u < 0.1:
-                c['ps'] = None
-                c['new_ps'] = '1/128'
-            elif u < 0.2:
-                c['ps'] = ['1/64', '1/32']
-                c['new_ps'] = '1/128'
-            else:
-                # ps = p*a/2^k, new = q*a/2^k  =>  ps/new = p/q exactly
-                a = rng.randint(1, 9)
-                k = rng.choice([256, 1024, 4096])
-                c['ps'] = [str(Fraction(s.numerator * a, k))] * 2
-                c['new_ps'] = str(Fraction(s.denominator * a, k))
-                if rng.random() < 0.25:      # decimal pixel scales whose ratio happens to be exact
-                    new = rng.choice([0.001, 0.0025, 0.005, 0.01, 0.02])
-                    c['ps'] = [str(Fraction(new * float(s)))] * 2
-                    c['new_ps'] = str(Fraction(new))
-        if not float_exact(c):
-            continue
-        s_eff = the_scale(c)
-        if s_eff is not None and (s_eff < Fraction(1, 4) or s_eff > 4):
-            continue
-        if tier == 'quick' and s_eff is not None and n * m * s_eff * s_eff > 12000:
-            continue
-        out += 1
+            if c['mask'] == 'none':
+                c['mask'] = 'disk'
+        elif t < 0.17:
+            c['mask'] = 'scalar'
+            c['amp'] = rng.choice(['scalar', 'smooth'])
+    return c
+
+
+def generate(rng, tier):
+    quick = tier == 'quick'
+    budget = 12000 if quick else 10 ** 9          # output samples per array
+    out = []
+
+    def add(c, s):
+        c = finish_case(rng, c, Fraction(s))
+        if c is not None and c['n'] * c['m'] * Fraction(s) ** 2 <= budget:
+            out.append(c)
+            return True
+        return False
+
+    # skeleton: every named scale on an even, an odd and a non-square plane, rescale and resample
+    for s in FIXED_SCALES:
+        for (n, m) in ((16, 16), (17, 17), (20, 27)) if quick else ((16, 16), (17, 17), (20, 27), (33, 24), (48, 48), (47, 31)):
+            for op in ('rescale', 'resample'):
+                if quick and op == 'resample' and (n, m) != (20, 27):
+                    continue
+                c = rnd_plane(rng, n, m, special=False)
+                c['op'] = op
+                for _ in range(20):
+                    if add(dict(c), s):
+                        break
+    # unit fractions whose denominator divides both sizes (every output sample is a node) and those where it does not
+    for k, n, m in ((2, 16, 24), (2, 18, 17), (3, 18, 24), (3, 16, 20), (4, 32, 16), (4, 18, 22)):
+        c = rnd_plane(rng, n, m, special=False)
+        c['op'] = 'rescale'
+        add(c, Fraction(1, k))
+    # refusals of resample
+    for ps in (None, ['1/64', '1/32']):
+        c = rnd_plane(rng, 16, 19, special=False)
+        c.update({'op': 'resample', 'ps': ps, 'new_ps': '1/128'})
+        out.append(c)
+    # random fill
+    n_cases = 80 if quick else 600
+    tries = 0
+    while len(out) < n_cases and tries < 100 * n_cases:
+        tries += 1
+        big = not quick or rng.random() < 0.15
+        n, m = rnd_size(rng, big)
+        c = rnd_plane(rng, n, m)
+        c['op'] = 'rescale' if rng.random() < 0.7 else 'resample'
+        add(c, rnd_scale(rng))
+    for c in out:
         yield c
 
 
@@ -425,6 +467,8 @@ def cmp_arr(name, impl_a, model_a, scale, mask_mode=None):
 
 def compare(c, impl, model):
     if 'err' in model or 'err' in impl:
+        if model.get('err') == 'ValueError' and 'err' not in impl and int_dtype(c):
+            return None     # the model documents finding C17-integer-mask; a repaired implementation is judged by the oracle
         if impl.get('err') != model.get('err'):
             return f"implementation {impl.get('err', 'returned a plane')}, model {model.get('err', 'returns a plane')}"
         return None
@@ -442,7 +486,10 @@ def compare(c, impl, model):
         kind, val = model[name]
         a = impl[name].a
         if kind == 'scalar':
-            if a.ndim != 0 or Fraction(float(a)) != val:
+            # the model keeps a scalar as it is (finding C17-scalar-amplitude); a repaired amplitude/s is left to the oracle
+            ok = a.ndim == 0 and (Fraction(float(a)) == val or
+                                  (name == 'amp' and abs(float(a) - float(val / s)) <= 1e-12 * abs(float(val / s))))
+            if not ok:
                 return f'{name}: {a!r} but the model keeps the scalar {val}'
         else:
             if a.ndim != 2:
@@ -463,9 +510,13 @@ def compare(c, impl, model):
         if a.ndim != 3 or a.shape[0] != len(val):
             return f'mask: shape {a.shape}, model has {len(val)} segments'
         segs_i, segs_m = list(a), val
+    tr, tc = (tie_flags(c['n'], len(segs_m[0]), s), tie_flags(c['m'], len(segs_m[0][0]) if segs_m[0] else 0, s)) \
+        if full and segs_m else ([], [])
     for k, (ai, am) in enumerate(zip(segs_i, segs_m)):
         if not full:      # non-dyadic float scale: the nearest-neighbour choice may differ by rounding; shapes only
             am = [[UNKNOWN] * len(row) for row in am]
+        else:             # exact ties of the nearest-neighbour rule are not pinned by the property: skipped
+            am = [[UNKNOWN if (tr[i] or tc[j]) else e for j, e in enumerate(row)] for i, row in enumerate(am)]
         msg = cmp_arr(f'mask[{k}]' if kind == 'cube' else 'mask', ai, am, 1.0)
         if msg:
             return msg
@@ -475,6 +526,23 @@ def compare(c, impl, model):
 
 
 # ------------------------------------------------------------------ direct oracle (no model)
+def coord_of(n, N, s, j):
+    return (Fraction(j) - Fraction(N, 2)) / s + Fraction(n, 2)
+
+
+def tie_flags(n, N, s):
+    """output samples whose coordinate is exactly half-way between two input samples"""
+    return [coord_of(n, N, s, j).denominator == 2 for j in range(N)]
+
+
+def nearest_index(n, N, s, j):
+    """nearest input sample of output sample j (None: outside [0, n-1], the mask is 0 there)"""
+    x = coord_of(n, N, s, j)
+    if x < 0 or x > n - 1:
+        return None
+    return math.floor(x + Fraction(1, 2))
+
+
 def node_index(n, N, s, j):
     """integer node inside the array hit by output sample j, else None: x_j = (j - N/2)/s + n/2"""
     x = (Fraction(j) - Fraction(N, 2)) / s + Fraction(n, 2)
@@ -508,6 +576,11 @@ def oracle(c, impl):
         arrays.append(('amplitude', impl['amp'].a))
     elif impl['amp'].a.ndim != 0:
         return 'scalar amplitude became an array'
+    else:
+        exp = float(amp) / float(s)
+        if abs(float(impl['amp'].a) - exp) > 1e-12 * abs(exp):
+            return (f"scalar amplitude {float(amp)!r} over an array mask became {float(impl['amp'].a)!r}, expected amplitude/s = {exp!r}: "
+                    f'the transmitted power sum|amplitude*mask|^2 is multiplied by s^2')
     if np.ndim(opd) == 2:
         arrays.append(('opd', impl['opd'].a))
     for name, a in arrays:
@@ -530,8 +603,26 @@ def oracle(c, impl):
     in_mask = impl['in_mask'].a
     if mi.ndim != in_mask.ndim or (mi.ndim == 3 and mi.shape[0] != in_mask.shape[0]):
         return f'mask structure changed: {in_mask.shape} -> {mi.shape}'
-    if mi.dtype.kind not in 'iu' or not np.isin(mi, (0, 1)).all():
-        return f'mask is not a binary integer array (dtype {mi.dtype})'
+    if not np.isin(mi, (0, 1)).all():
+        return f'mask is not binary (dtype {mi.dtype}, values {np.unique(mi)[:5]})'
+    # documented nearest-neighbour resampling of the mask (exact regime only; exact ties are not pinned)
+    if dyadic_small(s) and mi.shape[-2:] == (N, M):
+        ri = [nearest_index(n, N, s, i) for i in range(N)]
+        ci = [nearest_index(m, M, s, j) for j in range(M)]
+        tr, tc = tie_flags(n, N, s), tie_flags(m, M, s)
+        keep = np.outer([not t for t in tr], [not t for t in tc])
+        inside = np.outer([r is not None for r in ri], [q is not None for q in ci])
+        yy = np.array([r if r is not None else 0 for r in ri])[:, None]
+        xx = np.array([q if q is not None else 0 for q in ci])[None, :]
+        segs_in = in_mask if in_mask.ndim == 3 else in_mask[None]
+        segs_out = mi if mi.ndim == 3 else mi[None]
+        for q, (a, b) in enumerate(zip(segs_in, segs_out)):
+            exp = ((a[yy, xx] != 0) & inside).astype(int)
+            bad = (b != exp) & keep
+            if bad.any():
+                k = np.argwhere(bad)[0]
+                return (f'mask segment {q} sample [{k[0]},{k[1]}] = {b[tuple(k)]} but its nearest input sample '
+                        f'[{ri[k[0]]},{ci[k[1]]}] gives {exp[tuple(k)]}')
     # samples at nodes of the sampling grid (includes the identity for s = 1)
     rows = [(i, node_index(n, N, s, i)) for i in range(N)]
     cols = [(j, node_index(m, M, s, j)) for j in range(M)]
@@ -574,8 +665,14 @@ def oracle(c, impl):
 
 
 def known_match(f, c, impl):
+    if c.get('test'):
+        return False
     if f['id'] == 'C17-integer-mask':
         return int_dtype(c) and expect_refusal(c) is None and impl.get('err') == 'ValueError'
+    if f['id'] == 'C17-scalar-amplitude':
+        s = the_scale(c)
+        return (c['amp'] == 'scalar' and not scalar_mask(c) and not int_dtype(c) and 'err' not in impl
+                and s is not None and s != 1 and impl['amp'].a.ndim == 0 and float(impl['amp'].a) == 1.0)
     return False
 
 
@@ -588,6 +685,15 @@ def replay_known(f):
         except ValueError:
             return True
         return False
+    if f['id'] == 'C17-scalar-amplitude':
+        lentil = C.import_lentil()
+        m = np.zeros((16, 16))
+        m[4:12, 4:12] = 1
+        p = lentil.Plane(amplitude=1.0, mask=m, pixelscale=1.0)
+        q = p.rescale(2)
+        before = float(np.sum(np.abs(p.amplitude * p.mask) ** 2))
+        after = float(np.sum(np.abs(q.amplitude * q.mask) ** 2))
+        return after > 3.9 * before
     return False
 
 
